@@ -644,7 +644,85 @@ func RunRelax(p *Prog, r *Report, area string, scope func(string) bool) {
 			r.Fail("OPT-RELAX", pkg, k, "relaxing-options", pos[len(pos)-1], fmt.Sprintf("%d call site(s) pass an option documented as unsafe (unconstrained inputs/outputs, omitted modulus check), reviewed: %d — sites: %s. The values concerned are no longer constrained by the conversion itself", len(sites[k]), allowed, strings.Join(pos, ", ")))
 		}
 	}
+	relaxSeen := map[string]bool{}
+	// RELAX-USE: an *Outputs* relaxation hands the duty of constraining the outputs to the caller, which needs every
+	// output for that (lower + 2^split*upper == v needs both parts): no result of such a call may be dropped.
+	for _, fn := range p.Funcs {
+		pk := FuncPkg(fn)
+		if pk == nil || fn.Blocks == nil || fn.Synthetic != "" || !scope(pk.Path()) {
+			continue
+		}
+		for _, b := range fn.Blocks {
+			for _, ins := range b.Instrs {
+				oc, ok := ins.(*ssa.Call)
+				if !ok || oc.Call.StaticCallee() == nil || !strings.HasSuffix(FuncName(oc.Call.StaticCallee()), ".WithUnconstrainedOutputs") {
+					continue
+				}
+				cons := optionConsumer(oc)
+				if cons == nil {
+					continue
+				}
+				key := "outputs-used@" + Abstract(FuncName(fn))
+				if relaxSeen[key+p.Pos(cons.Pos())] {
+					continue
+				}
+				relaxSeen[key+p.Pos(cons.Pos())] = true
+				dropped := ""
+				if tup, ok := cons.Type().(*types.Tuple); ok {
+					got := map[int]bool{}
+					for _, ref := range *cons.Referrers() {
+						if ex, ok := ref.(*ssa.Extract); ok && hasRealUse(ex) {
+							got[ex.Index] = true
+						}
+					}
+					for i := 0; i < tup.Len(); i++ {
+						if !got[i] && !isErrorType(tup.At(i).Type()) {
+							dropped = fmt.Sprintf("result #%d", i)
+						}
+					}
+				} else if !hasRealUse(cons) {
+					dropped = "the result"
+				}
+				pkg := pk.Path()
+				if dropped == "" {
+					r.Pass("RELAX-USE", pkg, FuncName(fn), key, p.Pos(cons.Pos()), "every output of the call with unconstrained outputs is used by the caller (which has to constrain them)", true)
+				} else {
+					r.Fail("RELAX-USE", pkg, FuncName(fn), key, p.Pos(cons.Pos()), fmt.Sprintf("%s of %s called with unconstrained outputs is dropped: the caller cannot perform the recomposition / width checks it took over, so the part it keeps is a free hint output", dropped, funcBaseName(cons.Call.StaticCallee())))
+				}
+			}
+		}
+	}
 	r.Pass("OPT-RELAX", "-", "-", "summary:"+area, "-", fmt.Sprintf("%d option constructors tracked, %d functions of the area use them", len(found), len(ks)), len(ks) > 0)
+}
+
+// optionConsumer: the call that receives the option value through its variadic parameter.
+func optionConsumer(oc *ssa.Call) *ssa.Call {
+	for _, r := range *oc.Referrers() {
+		st, ok := r.(*ssa.Store)
+		if !ok {
+			continue
+		}
+		ia, ok := st.Addr.(*ssa.IndexAddr)
+		if !ok {
+			continue
+		}
+		al, ok := ia.X.(*ssa.Alloc)
+		if !ok {
+			continue
+		}
+		for _, ar := range *al.Referrers() {
+			sl, ok := ar.(*ssa.Slice)
+			if !ok {
+				continue
+			}
+			for _, sr := range *sl.Referrers() {
+				if c, ok := sr.(*ssa.Call); ok && c.Call.StaticCallee() != nil {
+					return c
+				}
+			}
+		}
+	}
+	return nil
 }
 
 type pfact struct {
